@@ -203,3 +203,143 @@ package blockchain
 //@   loop 1: invariant range: matchedBlockIter.rangeEnd == toBlock && e.toBlock == old(e.toBlock)
 //@   callsite NewMatchedBlockIterator@*: over_the_asked_range: $1 == fromBlock && $2 == toBlock && $3 == uint64(e.maxScanned) && $4 == &e.matcher && $5 == e.runningFilter
 //@   ensures scan_limit_hands_over_the_unscanned_candidate: result2 == nil && nextErr != nil && errIs(nextErr, scanLimit()) && calls_IterNext > old(calls_IterNext) ==> result1.fromBlock == nextBlock && result1.processedEvents == 0
+
+// ---- the chain readers ask the database exactly what they were asked (C08) ------------------------
+// Every reader that answers from one accessor hands it the chain's own database and its own
+// arguments, in the accessor's order (block number before index).
+//@ extern func github.com/NethermindEth/juno/blockchain.EventListener.OnRead
+//@ extern func github.com/NethermindEth/juno/core.GetBlockByNumber
+//@ extern func github.com/NethermindEth/juno/core.GetBlockCommitmentByBlockNum
+//@ extern func github.com/NethermindEth/juno/core.GetBlockHeaderByHash
+//@ extern func github.com/NethermindEth/juno/core.GetBlockHeaderByNumber
+//@ extern func github.com/NethermindEth/juno/core.GetBlockHeaderHashByNumber
+//@ extern func github.com/NethermindEth/juno/core.GetBlockHeaderNumberByHash
+//@ extern func github.com/NethermindEth/juno/core.GetBlockTransactionCountByNumber
+//@ extern func github.com/NethermindEth/juno/core.GetGlobalStateRootByBlockNumber
+//@ extern func github.com/NethermindEth/juno/core.GetStateUpdateByBlockNum
+//@ extern func github.com/NethermindEth/juno/core.GetStateUpdateByHash
+//@ extern func github.com/NethermindEth/juno/core.GetTransactionByBlockAndIndex
+//@ extern func github.com/NethermindEth/juno/core.GetTransactionExecutionStatusByBlockAndIndex
+//@ extern func github.com/NethermindEth/juno/core.GetTransactionHashesByBlockNumber
+//@ extern func github.com/NethermindEth/juno/core.GetTransactionsAndReceiptsByBlockNumber
+//@ extern func github.com/NethermindEth/juno/core.GetTransactionsByBlockNumber
+//@ func (*Blockchain).BlockByNumber
+//@   props C08
+//@   arith int
+//@   nosafe
+//@   ownpackage
+//@   requires b != nil
+//@   modifies *
+//@   callsite core.GetBlockByNumber@*: asks_exactly_what_it_was_asked: $0 == b.database && $1 == number
+//@ func (*Blockchain).BlockHeaderByNumber
+//@   props C08
+//@   arith int
+//@   nosafe
+//@   ownpackage
+//@   requires b != nil
+//@   modifies *
+//@   callsite core.GetBlockHeaderByNumber@*: asks_exactly_what_it_was_asked: $0 == b.database && $1 == number
+//@ func (*Blockchain).BlockTransactionCountByNumber
+//@   props C08
+//@   arith int
+//@   nosafe
+//@   ownpackage
+//@   requires b != nil
+//@   modifies *
+//@   callsite core.GetBlockTransactionCountByNumber@*: asks_exactly_what_it_was_asked: $0 == b.database && $1 == number
+//@ func (*Blockchain).BlockHeaderHashByNumber
+//@   props C08
+//@   arith int
+//@   nosafe
+//@   ownpackage
+//@   requires b != nil
+//@   modifies *
+//@   callsite core.GetBlockHeaderHashByNumber@*: asks_exactly_what_it_was_asked: $0 == b.database && $1 == number
+//@ func (*Blockchain).GlobalStateRootByBlockNumber
+//@   props C08
+//@   arith int
+//@   nosafe
+//@   ownpackage
+//@   requires b != nil
+//@   modifies *
+//@   callsite core.GetGlobalStateRootByBlockNumber@*: asks_exactly_what_it_was_asked: $0 == b.database && $1 == number
+//@ func (*Blockchain).BlockNumberByHash
+//@   props C08
+//@   arith int
+//@   nosafe
+//@   ownpackage
+//@   requires b != nil
+//@   modifies *
+//@   callsite core.GetBlockHeaderNumberByHash@*: asks_exactly_what_it_was_asked: $0 == b.database && $1 == hash
+//@ func (*Blockchain).BlockHeaderByHash
+//@   props C08
+//@   arith int
+//@   nosafe
+//@   ownpackage
+//@   requires b != nil
+//@   modifies *
+//@   callsite core.GetBlockHeaderByHash@*: asks_exactly_what_it_was_asked: $0 == b.database && $1 == hash
+//@ func (*Blockchain).StateUpdateByNumber
+//@   props C08
+//@   arith int
+//@   nosafe
+//@   ownpackage
+//@   requires b != nil
+//@   modifies *
+//@   callsite core.GetStateUpdateByBlockNum@*: asks_exactly_what_it_was_asked: $0 == b.database && $1 == number
+//@ func (*Blockchain).StateUpdateByHash
+//@   props C08
+//@   arith int
+//@   nosafe
+//@   ownpackage
+//@   requires b != nil
+//@   modifies *
+//@   callsite core.GetStateUpdateByHash@*: asks_exactly_what_it_was_asked: $0 == b.database && $1 == hash
+//@ func (*Blockchain).TransactionByBlockNumberAndIndex
+//@   props C08
+//@   arith int
+//@   nosafe
+//@   ownpackage
+//@   requires b != nil
+//@   modifies *
+//@   callsite core.GetTransactionByBlockAndIndex@*: asks_exactly_what_it_was_asked: $0 == b.database && $1 == blockNumber && $2 == index
+//@ func (*Blockchain).TransactionsByBlockNumber
+//@   props C08
+//@   arith int
+//@   nosafe
+//@   ownpackage
+//@   requires b != nil
+//@   modifies *
+//@   callsite core.GetTransactionsByBlockNumber@*: asks_exactly_what_it_was_asked: $0 == b.database && $1 == number
+//@ func (*Blockchain).TransactionsAndReceiptsByBlockNumber
+//@   props C08
+//@   arith int
+//@   nosafe
+//@   ownpackage
+//@   requires b != nil
+//@   modifies *
+//@   callsite core.GetTransactionsAndReceiptsByBlockNumber@*: asks_exactly_what_it_was_asked: $0 == b.database && $1 == number
+//@ func (*Blockchain).TransactionHashesByBlockNumber
+//@   props C08
+//@   arith int
+//@   nosafe
+//@   ownpackage
+//@   requires b != nil
+//@   modifies *
+//@   callsite core.GetTransactionHashesByBlockNumber@*: asks_exactly_what_it_was_asked: $0 == b.database && $1 == number
+//@ func (*Blockchain).TransactionExecutionStatusByBlockNumberAndIndex
+//@   props C08
+//@   arith int
+//@   nosafe
+//@   ownpackage
+//@   requires b != nil
+//@   modifies *
+//@   callsite core.GetTransactionExecutionStatusByBlockAndIndex@*: asks_exactly_what_it_was_asked: $0 == b.database && $1 == blockNumber && $2 == index
+//@ func (*Blockchain).BlockCommitmentsByNumber
+//@   props C08
+//@   arith int
+//@   nosafe
+//@   ownpackage
+//@   requires b != nil
+//@   modifies *
+//@   callsite core.GetBlockCommitmentByBlockNum@*: asks_exactly_what_it_was_asked: $0 == b.database && $1 == blockNumber
